@@ -1234,6 +1234,11 @@ impl<'de> de::Deserializer<'de> for &mut Deserializer<'de> {
         match self.expect_type.as_ref() {
             TypeInner::Principal => self.deserialize_principal(visitor),
             TypeInner::Vec(t) if **t == TypeInner::Nat8 => {
+                // as in deserialize_byte_buf: only a blob on the wire has this layout by type
+                check!(
+                    *self.wire_type == TypeInner::Vec(TypeInner::Nat8.into()),
+                    "vec nat8"
+                );
                 let len = self.read_len()?;
                 self.add_cost(len.saturating_add(1))?;
                 let slice = self.borrow_bytes(len)?;
